@@ -319,6 +319,15 @@ func c03SkipVerifyPlumbing(c *Ctx) {
 			if k, isK := st.Val.(*ssa.Const); isK && !isTrueConst(k) {
 				return // switching verification on
 			}
+			// "opt.SkipVerify = opt.SkipVerify || o.skipVerify": the stored value is computed from
+			// what was configured already and the flag, nothing else
+			if _, isK := st.Val.(*ssa.Const); !isK && onlyOrigins(st.Val, func(o string) bool {
+				return o == "field:cmdStoreOptions.skipVerify" || o == "field:StoreOptions.SkipVerify" || strings.HasPrefix(o, "const:") || strings.HasPrefix(o, "param:")
+			}) && hasOrigin(st.Val, func(o string) bool { return o == "field:cmdStoreOptions.skipVerify" }) {
+				n++
+				c.ok(fnKey(fn)+":skip-verify-by-flag", ins.Pos(), "StoreOptions.SkipVerify is computed from its configured value and --skip-verify only")
+				return
+			}
 			n++
 			if fnKey(fn) == "cmd.runPull" {
 				c.info(fnKey(fn)+":skip-verify-by-flag", ins.Pos(), "exception: server side of the casync protocol - chunks are sent in storage form and the pulling client verifies them (stated in the source)")
